@@ -24,7 +24,7 @@ from .c10 import PREFIXES, YEAROPTS, _mode_args, line_marker
 ID = "C07"
 MODULE = "mc.checks.c07"
 HOLDERS = ["Jane Doe", "Jane Doe <jane@example.com>", "Müller & Söhne GmbH", "Acme, Inc. (\"ACME\") 100%"]
-PRIORS = ["empty", "code", "foreign-header"]
+PRIORS = ["empty", "code", "foreign-header", "binary-looking"]
 TARGETS = ["in-file", "force-dot-license", "fallback-dot-license", "binary", "uncommentable"]
 S3_STYLES = ["python", "c", "html", "cpp", "jinja", "lisp"]
 S3_TEMPLATES = [None, "full", "nocontrib", "nolicence", "nocopyright", "nothing", "hash.commented"]
@@ -167,6 +167,9 @@ def prior_text(kind, style_cls):
         return "", [], []
     if kind == "code":
         return "first line of content\nsecond line\n", [], []
+    if kind == "binary-looking":
+        # valid UTF-8 that a content sniffer takes for binary data
+        return "blob = '" + "\0" * 600 + "'\n", [], []
     # a header in a style that is foreign to (almost) every file type: tags on
     # bare lines framed by a custom box; lint reads them, annotate cannot parse it
     text = "=== SPDX-FileCopyrightText: 2001 Old Holder\n=== SPDX-License-Identifier: ISC\n\nfirst line of content\n"
